@@ -28,6 +28,7 @@ from pycel.excelutil import (
     AddressRange,
     ERROR_CODES,
     flatten,
+    in_array_formula_context,
     is_address,
     iterative_eval_tracker,
     list_like,
@@ -864,17 +865,19 @@ class ExcelCompiler:
                 if list_like(data) and list_like(data[0]) and any(
                         is_address(d) for d in flatten(data)):
                     # the formula produced a reference (OFFSET, INDIRECT),
-                    # the cells of the range show the cells referred to
-                    # (an empty cell shows as 0, like any formula result)
+                    # the range shows the cells referred to, fitted like any
+                    # other result (an empty cell shows as 0)
                     def referred_to(ref, row, col):
                         value = self._evaluate(
                             ref.address_at_offset(row, col).address)
                         return 0 if value is None else value
 
-                    data = tuple(tuple(
-                        referred_to(d, r, c) if is_address(d) else d
-                        for c, d in enumerate(row))
-                        for r, row in enumerate(data))
+                    ref = next(d for d in flatten(data) if is_address(d))
+                    with in_array_formula_context(cell_range.address):
+                        data = in_array_formula_context.fit_to_range(tuple(
+                            tuple(referred_to(ref, row, col)
+                                  for col in range(ref.size.width))
+                            for row in range(ref.size.height)))
             self.log.info(f"Range {cell_range.address} evaluated to '{data}'")
 
             cell_range.value = data
